@@ -787,6 +787,19 @@ func c01b(c *Ctx) {
 	if fn == nil || split == nil {
 		return
 	}
+	// lemma 0: the work list starts with one chunk that holds the whole body of the script
+	{
+		n := 0
+		for _, ci := range c.chunkAllocs(fn) {
+			if isInLoopRegion(ci.a.Block()) {
+				continue
+			}
+			n++
+			whole := ci.stmts == "$1.Body.Statements[:]" || ci.stmts == "$1.Body.Statements"
+			c.Check(whole, "entry-chunk/whole-body", c.W.Pos(ci.a.Pos()), "the entry chunk holds all statements of the script body", "the entry chunk is built with statements="+pretty(ci.stmts)+", expected the script's Body.Statements: statements of the body would never be rendered")
+		}
+		c.Check(n == 1, "entry-chunk/site", c.W.FuncPos(fn), "one entry chunk is made before the work loop", fmt.Sprintf("expected one chunk made before the work loop, found %d", n))
+	}
 	// lemma 1 (when the predicate is a function of its own): isLastStatement(c, i) == (i == len(c.statements)-1)
 	if last := c.W.Method("emitter", "chunk", "isLastStatement"); last != nil && len(last.Blocks) > 0 {
 		rets := returnsOf(last)
